@@ -123,4 +123,456 @@ theorem addProperty_eq (pa : PArr V) (name : String) (ty : CType) (dflt : V)
       · exact Or.inr (Or.inr h)
     simp [hsz', hsz]
 
+/-! ### the sequence of `add_property` calls a reader makes -/
+
+/-- one call `add_property(name, type=ty, default=dflt, data=data, stride=stride)` -/
+structure AddReq (V : Type) where
+  name : String
+  ty : CType
+  dflt : V
+  data : Option (List V)
+  stride : Nat
+
+def addReq (pa : PArr V) (r : AddReq V) : Except String (PArr V) :=
+  addProperty pa r.name r.ty (some r.dflt) r.data r.stride
+
+/-- the three properties `clear()` creates -/
+def isBase (n : String) : Prop := n = "tag" ∨ n = "pid" ∨ n = "gid"
+
+def baseTy (n : String) : CType := if n = "gid" then .uint else .int
+
+/-- a request as the readers issue them for an array written with `num` particles -/
+structure ReqOK (num : Nat) (r : AddReq V) : Prop where
+  stride_pos : 1 ≤ r.stride
+  len : ∀ d, r.data = some d → d.length = num * r.stride
+  base : isBase r.name → r.stride = 1 ∧ r.ty = baseTy r.name
+
+/-- invariant of the property records while a reader rebuilds an array:
+`done` are the requests served so far, `nP` the current particle count -/
+structure SInv (num : Nat) (done : List (AddReq V)) (nP : Nat) (ps : List (PropRec V)) : Prop where
+  nodup : (ps.map (·.name)).Nodup
+  hasBase : ∀ n, isBase n → ∃ p ∈ ps, p.name = n
+  names : ∀ p ∈ ps, isBase p.name ∨ ∃ r ∈ done, r.name = p.name
+  baseMeta : ∀ p ∈ ps, isBase p.name → p.stride = 1 ∧ p.ctype = baseTy p.name
+  np : nP = 0 ∨ nP = num
+  npd : nP = 0 → ∀ r ∈ done, ∀ d, r.data = some d → d = []
+  coh : ∀ p ∈ ps, p.data.length = nP * p.stride
+  stridePos : ∀ p ∈ ps, 1 ≤ p.stride
+  doneOK : ∀ r ∈ done, ReqOK num r
+  doneMeta : ∀ r ∈ done, ∃ p ∈ ps, p.name = r.name ∧ p.ctype = r.ty ∧ p.stride = r.stride ∧
+    p.default = r.dflt ∧ (∀ d, r.data = some d → p.data = d)
+  tagc : ∀ p ∈ ps, p.name = "tag" →
+    (∃ k x, p.data = List.replicate k x) ∨ (∃ r ∈ done, r.name = "tag" ∧ r.data = some p.data)
+
+theorem stepRec_name (name : String) (dflt : V) (stride : Nat) (rs : Option Nat) (d : List V)
+    (p : PropRec V) : (stepRec name dflt stride rs d p).name = p.name := by
+  unfold stepRec; split <;> rfl
+
+theorem stepRec_ctype (name : String) (dflt : V) (stride : Nat) (rs : Option Nat) (d : List V)
+    (p : PropRec V) : (stepRec name dflt stride rs d p).ctype = p.ctype := by
+  unfold stepRec; split <;> rfl
+
+theorem findProp_of_mem (ps : List (PropRec V)) (n : String)
+    (hnd : (ps.map (·.name)).Nodup) (p : PropRec V) (hp : p ∈ ps) (hn : p.name = n) :
+    findProp ps n = some p := by
+  induction ps with
+  | nil => cases hp
+  | cons q qs ih =>
+    simp only [List.map_cons, List.nodup_cons] at hnd
+    simp only [findProp, List.find?_cons]
+    by_cases hq : q.name = n
+    · rcases List.mem_cons.1 hp with e | hin
+      · subst e; simp [hq]
+      · exfalso; apply hnd.1
+        exact List.mem_map.2 ⟨p, hin, by rw [hn, hq]⟩
+    · have hne : (q.name == n) = false := by simpa using hq
+      rw [hne]
+      rcases List.mem_cons.1 hp with e | hin
+      · subst e; exact absurd hn hq
+      · exact ih hnd.2 hin
+
+theorem numParticles_of_inv {num : Nat} {done : List (AddReq V)} {nP : Nat} (pa : PArr V)
+    (h : SInv num done nP pa.props) : numParticles pa false = nP := by
+  obtain ⟨t, ht, htn⟩ := h.hasBase "tag" (Or.inl rfl)
+  have hf := findProp_of_mem pa.props "tag" h.nodup t ht htn
+  have hl := h.coh t ht
+  have hs := (h.baseMeta t ht (by rw [htn]; exact Or.inl rfl)).1
+  simp [numParticles, hf, hl, hs]
+
+theorem getD_ne_nil {d : Option (List V)} (h : d.getD [] ≠ []) : d = some (d.getD []) := by
+  cases d with
+  | none => simp at h
+  | some x => rfl
+
+/-- the new property records after one request -/
+def stepProps (ps : List (PropRec V)) (nP : Nat) (r : AddReq V) : List (PropRec V) :=
+  ps.map (stepRec r.name r.dflt r.stride (resizeOf nP r.stride (r.data.getD [])) (r.data.getD [])) ++
+    (if hasProp ps r.name then [] else [freshRec r.name r.ty r.dflt r.stride nP (r.data.getD [])])
+
+def stepNP (num nP : Nat) (r : AddReq V) : Nat :=
+  if nP = 0 ∧ r.data.getD [] ≠ [] then num else nP
+
+theorem mem_stepProps {ps : List (PropRec V)} {nP : Nat} {r : AddReq V} {p' : PropRec V} :
+    p' ∈ stepProps ps nP r ↔
+      (∃ p ∈ ps, stepRec r.name r.dflt r.stride (resizeOf nP r.stride (r.data.getD []))
+        (r.data.getD []) p = p') ∨
+      (hasProp ps r.name = false ∧
+        p' = freshRec r.name r.ty r.dflt r.stride nP (r.data.getD [])) := by
+  unfold stepProps
+  cases hh : hasProp ps r.name <;> simp [List.mem_append, List.mem_map]
+
+theorem SInv.step {num : Nat} {done : List (AddReq V)} {nP : Nat} {ps : List (PropRec V)}
+    (h : SInv num done nP ps) (r : AddReq V) (hr : ReqOK num r)
+    (hnew : ∀ q ∈ done, q.name ≠ r.name) :
+    SInv num (done ++ [r]) (stepNP num nP r) (stepProps ps nP r) := by
+  generalize hd : r.data.getD [] = d
+  have hsome : d ≠ [] → r.data = some d := fun hne => by
+    have := getD_ne_nil (d := r.data) (by rw [hd]; exact hne)
+    rw [hd] at this; exact this
+  have hdlen : d ≠ [] → d.length = num * r.stride := fun hne => hr.len d (hsome hne)
+  have hspos := hr.stride_pos
+  have hdiv : d ≠ [] → d.length / r.stride = num := fun hne => by
+    rw [hdlen hne]; exact Nat.mul_div_cancel _ (by omega)
+  have hnumpos : d ≠ [] → 0 < num := fun hne => by
+    have h1 := hdlen hne
+    have h2 : d.length ≠ 0 := fun e => hne (List.length_eq_zero_iff.1 e)
+    rcases Nat.eq_zero_or_pos num with e | e
+    · rw [e] at h1; simp at h1; exact absurd h1 hne
+    · exact e
+  have hrs : resizeOf nP r.stride d = if nP = 0 ∧ d ≠ [] then some num else none := by
+    unfold resizeOf
+    split
+    · rename_i hc; rw [hdiv hc.2]
+    · rfl
+  have hnil_data : ∀ d', r.data = some d' → d' = d := fun d' e => by rw [← hd, e]; rfl
+  have hnP' : stepNP num nP r = if nP = 0 ∧ d ≠ [] then num else nP := by
+    unfold stepNP; rw [hd]
+  have hnP'ne : d ≠ [] → stepNP num nP r = num := fun hne => by
+    rw [hnP']
+    split
+    · rfl
+    · rename_i hc
+      rcases h.np with e | e
+      · exact absurd ⟨e, hne⟩ hc
+      · exact e
+  have hnP'nil : d = [] → stepNP num nP r = nP := fun e => by
+    rw [hnP']; simp [e]
+  have hhas : hasProp ps r.name = true → isBase r.name := fun hh => by
+    obtain ⟨p, hp, hpn⟩ := (hasProp_iff _ _).1 hh
+    rcases h.names p hp with hb | ⟨q, hq, hqn⟩
+    · rw [← hpn]; exact hb
+    · exact absurd (hqn.trans hpn) (hnew q hq)
+  have hmem := @mem_stepProps V _ _ ps nP r
+  rw [hd] at hmem
+  rw [hrs] at hmem
+  -- facts about the image of an old record
+  have himg : ∀ p ∈ ps, ∀ p', stepRec r.name r.dflt r.stride
+      (if nP = 0 ∧ d ≠ [] then some num else none) d p = p' →
+      p'.name = p.name ∧ p'.ctype = p.ctype ∧
+      (p.name ≠ r.name → p'.stride = p.stride ∧ p'.default = p.default ∧
+        p'.data = (if nP = 0 ∧ d ≠ [] then List.replicate (num * p.stride) p.default else p.data)) ∧
+      (p.name = r.name → p'.stride = r.stride ∧ p.stride = r.stride ∧ p'.default = r.dflt ∧
+        p'.data = (if d = [] then p.data else d)) := by
+    intro p hp p' e
+    subst e
+    refine ⟨stepRec_name _ _ _ _ _ _, stepRec_ctype _ _ _ _ _ _, ?_, ?_⟩
+    · intro hne
+      unfold stepRec
+      rw [if_neg hne]
+      refine ⟨rfl, rfl, ?_⟩
+      by_cases hc : nP = 0 ∧ d ≠ []
+      · simp [hc]
+      · simp [hc]
+    · intro he
+      have hb : isBase r.name := hhas ((hasProp_iff _ _).2 ⟨p, hp, he⟩)
+      have hrs1 := (hr.base hb).1
+      have hps1 := (h.baseMeta p hp (by rw [he]; exact hb)).1
+      unfold stepRec
+      rw [if_pos he]
+      refine ⟨?_, by rw [hps1, hrs1], rfl, ?_⟩
+      · simp [hrs1, hps1]
+      · by_cases hdn : d = []
+        · simp [hdn]
+        · simp [hdn]
+  have hnP'cases : (nP = 0 ∧ d ≠ [] ∧ stepNP num nP r = num) ∨
+      (¬ (nP = 0 ∧ d ≠ []) ∧ stepNP num nP r = nP) := by
+    by_cases hc : nP = 0 ∧ d ≠ []
+    · exact Or.inl ⟨hc.1, hc.2, hnP'ne hc.2⟩
+    · exact Or.inr ⟨hc, by rw [hnP']; simp [hc]⟩
+  refine { nodup := ?_, hasBase := ?_, names := ?_, baseMeta := ?_, np := ?_, npd := ?_,
+           coh := ?_, stridePos := ?_, doneOK := ?_, doneMeta := ?_, tagc := ?_ }
+  · -- nodup
+    unfold stepProps
+    rw [List.map_append, List.map_map]
+    have hnm : (fun p : PropRec V => p.name) ∘
+        stepRec r.name r.dflt r.stride (resizeOf nP r.stride (r.data.getD [])) (r.data.getD []) =
+        (fun p : PropRec V => p.name) := by
+      funext p; exact stepRec_name _ _ _ _ _ _
+    rw [hnm]
+    cases hh : hasProp ps r.name
+    · simp only [Bool.false_eq_true, if_false, List.map_cons, List.map_nil]
+      rw [List.nodup_append]
+      refine ⟨h.nodup, by simp, ?_⟩
+      intro a ha b hb
+      simp only [List.mem_singleton] at hb
+      subst hb
+      intro e
+      subst e
+      obtain ⟨p, hp, hpn⟩ := List.mem_map.1 ha
+      have : hasProp ps r.name = true := (hasProp_iff _ _).2 ⟨p, hp, hpn⟩
+      rw [hh] at this; cases this
+    · simpa using h.nodup
+  · -- hasBase
+    intro n hn
+    obtain ⟨p, hp, hpn⟩ := h.hasBase n hn
+    exact ⟨_, hmem.2 (Or.inl ⟨p, hp, rfl⟩), by rw [stepRec_name]; exact hpn⟩
+  · -- names
+    intro p' hp'
+    rcases hmem.1 hp' with ⟨p, hp, e⟩ | ⟨_, e⟩
+    · have hn := (himg p hp p' e).1
+      rcases h.names p hp with hb | ⟨q, hq, hqn⟩
+      · left; rw [hn]; exact hb
+      · right; exact ⟨q, List.mem_append_left _ hq, by rw [hn]; exact hqn⟩
+    · right; exact ⟨r, by simp, by rw [e]; rfl⟩
+  · -- baseMeta
+    intro p' hp' hb
+    rcases hmem.1 hp' with ⟨p, hp, e⟩ | ⟨_, e⟩
+    · obtain ⟨hn, hc, hne, heq⟩ := himg p hp p' e
+      have hbp : isBase p.name := by rw [← hn]; exact hb
+      have hm := h.baseMeta p hp hbp
+      by_cases hpr : p.name = r.name
+      · obtain ⟨h1, h2, _, _⟩ := heq hpr
+        exact ⟨by rw [h1, ← h2]; exact hm.1, by rw [hc, hn]; exact hm.2⟩
+      · obtain ⟨h1, _, _⟩ := hne hpr
+        exact ⟨by rw [h1]; exact hm.1, by rw [hc, hn]; exact hm.2⟩
+    · subst e
+      exact hr.base hb
+  · -- np
+    rcases hnP'cases with ⟨_, _, e⟩ | ⟨_, e⟩
+    · exact Or.inr e
+    · rw [e]; exact h.np
+  · -- npd
+    intro h0 q hq d' hd'
+    rcases hnP'cases with ⟨_, hne, e⟩ | ⟨hc, e⟩
+    · have := hnumpos hne
+      omega
+    · have hnP0 : nP = 0 := by rw [← e]; exact h0
+      have hdn : d = [] := by
+        by_cases hdn : d = []
+        · exact hdn
+        · exact absurd ⟨hnP0, hdn⟩ hc
+      rcases List.mem_append.1 hq with hq | hq
+      · exact h.npd hnP0 q hq d' hd'
+      · simp only [List.mem_singleton] at hq
+        subst hq
+        rw [hnil_data d' hd']; exact hdn
+  · -- coh
+    intro p' hp'
+    rcases hmem.1 hp' with ⟨p, hp, e⟩ | ⟨_, e⟩
+    · obtain ⟨hn, hc, hne, heq⟩ := himg p hp p' e
+      by_cases hpr : p.name = r.name
+      · obtain ⟨h1, h2, _, h4⟩ := heq hpr
+        rw [h4, h1]
+        by_cases hdn : d = []
+        · rw [if_pos hdn, hnP'nil hdn, ← h2]; exact h.coh p hp
+        · rw [if_neg hdn, hnP'ne hdn]; exact hdlen hdn
+      · obtain ⟨h1, _, h3⟩ := hne hpr
+        rw [h3, h1]
+        rcases hnP'cases with ⟨h0, hdn, e⟩ | ⟨hc', e⟩
+        · rw [if_pos ⟨h0, hdn⟩, e]; simp
+        · rw [if_neg hc', e]; exact h.coh p hp
+    · subst e
+      simp only [freshRec]
+      by_cases hdn : d = []
+      · rw [if_pos hdn, hnP'nil hdn]; simp
+      · rw [if_neg hdn, hnP'ne hdn]; exact hdlen hdn
+  · -- stridePos
+    intro p' hp'
+    rcases hmem.1 hp' with ⟨p, hp, e⟩ | ⟨_, e⟩
+    · obtain ⟨hn, hc, hne, heq⟩ := himg p hp p' e
+      by_cases hpr : p.name = r.name
+      · rw [(heq hpr).1]; exact hspos
+      · rw [(hne hpr).1]; exact h.stridePos p hp
+    · subst e; exact hspos
+  · -- doneOK
+    intro q hq
+    rcases List.mem_append.1 hq with hq | hq
+    · exact h.doneOK q hq
+    · simp only [List.mem_singleton] at hq
+      subst hq; exact hr
+  · -- doneMeta
+    intro q hq
+    rcases List.mem_append.1 hq with hq | hq
+    · obtain ⟨p, hp, hpn, hpc, hps, hpd, hpdata⟩ := h.doneMeta q hq
+      have hpr : p.name ≠ r.name := by rw [hpn]; exact hnew q hq
+      obtain ⟨hn, hc, hne, _⟩ := himg p hp _ rfl
+      obtain ⟨h1, h2, h3⟩ := hne hpr
+      refine ⟨_, hmem.2 (Or.inl ⟨p, hp, rfl⟩), by rw [hn]; exact hpn, by rw [hc]; exact hpc,
+        by rw [h1]; exact hps, by rw [h2]; exact hpd, ?_⟩
+      intro d' hd'
+      rw [h3]
+      by_cases hc' : nP = 0 ∧ d ≠ []
+      · rw [if_pos hc']
+        have hd'nil : d' = [] := h.npd hc'.1 q hq d' hd'
+        have hl := (h.doneOK q hq).len d' hd'
+        have hqs := (h.doneOK q hq).stride_pos
+        rw [hd'nil] at hl
+        simp only [List.length_nil] at hl
+        have hnum0 : num = 0 := by
+          rcases Nat.eq_zero_or_pos num with e | e
+          · exact e
+          · have : 0 < num * q.stride := Nat.mul_pos e (by omega)
+            omega
+        rw [hnum0, hd'nil]; simp
+      · rw [if_neg hc']; exact hpdata d' hd'
+    · simp only [List.mem_singleton] at hq
+      subst hq
+      have hzero : ∀ d', q.data = some d' → d = [] → nP = 0 := by
+        intro d' hd' hdn
+        have hl := hr.len d' hd'
+        rw [hnil_data d' hd', hdn] at hl
+        simp only [List.length_nil] at hl
+        have hnum0 : num = 0 := by
+          rcases Nat.eq_zero_or_pos num with e | e
+          · exact e
+          · have : 0 < num * q.stride := Nat.mul_pos e (by omega)
+            omega
+        rcases h.np with e | e
+        · exact e
+        · rw [e, hnum0]
+      cases hh : hasProp ps q.name
+      · refine ⟨_, hmem.2 (Or.inr ⟨hh, rfl⟩), rfl, rfl, rfl, rfl, ?_⟩
+        intro d' hd'
+        simp only [freshRec]
+        by_cases hdn : d = []
+        · rw [if_pos hdn, hzero d' hd' hdn, hnil_data d' hd', hdn]; simp
+        · rw [if_neg hdn, hnil_data d' hd']
+      · obtain ⟨p, hp, hpn⟩ := (hasProp_iff _ _).1 hh
+        obtain ⟨hn, hc, _, heq⟩ := himg p hp _ rfl
+        obtain ⟨h1, h2, h3, h4⟩ := heq hpn
+        have hb := hhas hh
+        have hbm := h.baseMeta p hp (by rw [hpn]; exact hb)
+        refine ⟨_, hmem.2 (Or.inl ⟨p, hp, rfl⟩), by rw [hn]; exact hpn, ?_, h1, h3, ?_⟩
+        · rw [hc, hbm.2, hpn]; exact (hr.base hb).2.symm
+        · intro d' hd'
+          rw [h4]
+          by_cases hdn : d = []
+          · rw [if_pos hdn, hnil_data d' hd', hdn]
+            have hl := h.coh p hp
+            rw [hzero d' hd' hdn] at hl
+            simp only [Nat.zero_mul] at hl
+            exact List.length_eq_zero_iff.1 hl
+          · rw [if_neg hdn, hnil_data d' hd']
+  · -- tagc
+    intro p' hp' hp't
+    rcases hmem.1 hp' with ⟨p, hp, e⟩ | ⟨hh, e⟩
+    · obtain ⟨hn, hc, hne, heq⟩ := himg p hp p' e
+      have hpt : p.name = "tag" := by rw [← hn]; exact hp't
+      by_cases hpr : p.name = r.name
+      · obtain ⟨_, _, _, h4⟩ := heq hpr
+        by_cases hdn : d = []
+        · rw [h4, if_pos hdn]
+          rcases h.tagc p hp hpt with hl | ⟨q, hq, hqn, hqd⟩
+          · exact Or.inl hl
+          · exact Or.inr ⟨q, List.mem_append_left _ hq, hqn, hqd⟩
+        · right
+          refine ⟨r, by simp, by rw [← hpr]; exact hpt, ?_⟩
+          rw [h4, if_neg hdn]; exact hsome hdn
+      · obtain ⟨_, _, h3⟩ := hne hpr
+        rw [h3]
+        by_cases hc' : nP = 0 ∧ d ≠ []
+        · rw [if_pos hc']; exact Or.inl ⟨_, _, rfl⟩
+        · rw [if_neg hc']
+          rcases h.tagc p hp hpt with hl | ⟨q, hq, hqn, hqd⟩
+          · exact Or.inl hl
+          · exact Or.inr ⟨q, List.mem_append_left _ hq, hqn, hqd⟩
+    · exfalso
+      subst e
+      obtain ⟨t, ht, htn⟩ := h.hasBase "tag" (Or.inl rfl)
+      have : hasProp ps r.name = true :=
+        (hasProp_iff _ _).2 ⟨t, ht, by rw [htn]; exact hp't.symm⟩
+      rw [hh] at this; cases this
+
+/-- one request on an array whose records satisfy the invariant succeeds and
+keeps the invariant -/
+theorem addReq_ok {num : Nat} {done : List (AddReq V)} {nP : Nat} (pa : PArr V)
+    (h : SInv num done nP pa.props) (r : AddReq V) (hr : ReqOK num r)
+    (hnew : ∀ q ∈ done, q.name ≠ r.name) :
+    ∃ pa', addReq pa r = .ok pa' ∧ pa'.props = stepProps pa.props nP r ∧
+      pa'.name = pa.name ∧ pa'.consts = pa.consts ∧ pa'.outArrs = pa.outArrs ∧
+      SInv num (done ++ [r]) (stepNP num nP r) pa'.props := by
+  have hnp := numParticles_of_inv pa h
+  have hstep := h.step r hr hnew
+  unfold addReq
+  rw [addProperty_eq]
+  simp only [hnp]
+  have hsz : (nP = 0 ∨ r.data.getD [] = [] ∨
+      (nP = (r.data.getD []).length / r.stride ∧ (r.data.getD []).length % r.stride = 0)) := by
+    by_cases h0 : nP = 0
+    · exact Or.inl h0
+    by_cases hdn : r.data.getD [] = []
+    · exact Or.inr (Or.inl hdn)
+    right; right
+    have hl := hr.len _ (getD_ne_nil hdn)
+    have hs := hr.stride_pos
+    have hnum : nP = num := by
+      rcases h.np with e | e
+      · exact absurd e h0
+      · exact e
+    rw [hl, hnum]
+    exact ⟨(Nat.mul_div_cancel _ (by omega)).symm, Nat.mul_mod_left _ _⟩
+  rw [if_neg (fun hn => hn hsz)]
+  exact ⟨_, rfl, rfl, rfl, rfl, rfl, hstep⟩
+
+def addAll (pa : PArr V) (rs : List (AddReq V)) : Except String (PArr V) :=
+  rs.foldlM addReq pa
+
+/-- all requests of a reader, in any order with distinct names, succeed -/
+theorem addAll_ok {num : Nat} (rs : List (AddReq V)) :
+    ∀ (done : List (AddReq V)) (nP : Nat) (pa : PArr V),
+    SInv num done nP pa.props →
+    (∀ r ∈ rs, ReqOK num r) →
+    ((done ++ rs).map (·.name)).Nodup →
+    ∃ pa' nP', addAll pa rs = .ok pa' ∧ pa'.name = pa.name ∧ pa'.consts = pa.consts ∧
+      pa'.outArrs = pa.outArrs ∧ SInv num (done ++ rs) nP' pa'.props := by
+  induction rs with
+  | nil =>
+    intro done nP pa h _ _
+    exact ⟨pa, nP, rfl, rfl, rfl, rfl, by simpa using h⟩
+  | cons r rs ih =>
+    intro done nP pa h hok hnd
+    have hnew : ∀ q ∈ done, q.name ≠ r.name := by
+      intro q hq e
+      rw [List.map_append, List.nodup_append] at hnd
+      exact hnd.2.2 q.name (List.mem_map.2 ⟨q, hq, rfl⟩) r.name
+        (List.mem_map.2 ⟨r, by simp, rfl⟩) e
+    obtain ⟨pa1, h1, _, hn1, hc1, ho1, hinv1⟩ :=
+      addReq_ok pa h r (hok r (by simp)) hnew
+    have hnd' : (((done ++ [r]) ++ rs).map (·.name)).Nodup := by
+      simpa [List.append_assoc] using hnd
+    obtain ⟨pa2, nP2, h2, hn2, hc2, ho2, hinv2⟩ :=
+      ih (done ++ [r]) _ pa1 hinv1 (fun q hq => hok q (by simp [hq])) hnd'
+    refine ⟨pa2, nP2, ?_, hn2.trans hn1, hc2.trans hc1, ho2.trans ho1, by
+      simpa [List.append_assoc] using hinv2⟩
+    simp only [addAll, List.foldlM_cons, h1] at h2 ⊢
+    exact h2
+
+/-- the records right after `clear()` satisfy the invariant -/
+theorem sinv_clear (num : Nat) : SInv (V := V) num [] 0 (clearProps PVal.zero) := by
+  refine { nodup := by simp [clearProps], hasBase := ?_, names := ?_, baseMeta := ?_, np := Or.inl rfl,
+           npd := by simp, coh := by simp [clearProps], stridePos := by simp [clearProps],
+           doneOK := by simp, doneMeta := by simp, tagc := ?_ }
+  · intro n hn
+    rcases hn with e | e | e <;> subst e <;> simp [clearProps]
+  · intro p hp
+    simp only [clearProps, List.mem_cons, List.not_mem_nil, or_false] at hp
+    rcases hp with e | e | e <;> subst e <;> simp [isBase]
+  · intro p hp _
+    simp only [clearProps, List.mem_cons, List.not_mem_nil, or_false] at hp
+    rcases hp with e | e | e <;> subst e <;> simp [baseTy]
+  · intro p hp _
+    simp only [clearProps, List.mem_cons, List.not_mem_nil, or_false] at hp
+    left
+    rcases hp with e | e | e <;> subst e <;> exact ⟨0, PVal.zero, rfl⟩
+
 end PysphVerif.DumpLoad
